@@ -506,4 +506,17 @@ example : definition asciiUpper [nvC, nvP, nvM] ⟨"ac", some 0, 5, .right (.dot
 example : definition asciiUpper [nvC, nvP, nvM] ⟨"ac", some 0, 5, .right (.term "p") (some "fx")⟩
     = [⟨"ac", ⟨⟨3, 0⟩, ⟨3, 2⟩⟩, Range.zero⟩, ⟨"aP", ⟨⟨1, 0⟩, ⟨1, 2⟩⟩, Range.zero⟩] := by decide
 
+/-- a uses list may name entities that have no file (before, between and behind those that exist): the workspace
+    still satisfies the guard, the missing ones are skipped and the constant of the used module listed behind one is
+    found — by the code (`definition`) and by the rule (`plainSpec`); the missing entity's own name resolves to nothing -/
+def nvG : Entity := { stem := "ac", top := [.cls { uid := 5, id := "aC", kind := .cls } (some "AP"), .uses "wNoLib", .uses "WM", .uses "zLast",
+                        .decl { uid := 6, id := "FX", kind := .field, ty := .basic "ap", sel := ⟨⟨3, 0⟩, ⟨3, 2⟩⟩ }],
+                      methods := [{ decl := { uid := 7, id := "Run", kind := .proc },
+                                    params := [{ uid := 8, id := "p", kind := .var, ty := .basic "AC", sel := ⟨⟨5, 9⟩, ⟨5, 10⟩⟩ }] }] }
+
+example : WellFormedWs asciiUpper [nvG, nvP, nvM] := by decide
+example : definition asciiUpper [nvG, nvP, nvM] ⟨"ac", some 0, 5, .plain (some "ck")⟩ = [⟨"wM", ⟨⟨1, 6⟩, ⟨1, 8⟩⟩, Range.zero⟩] := by decide
+example : (plainSpec asciiUpper [nvG, nvP, nvM] nvG (some 0) "CK").map linkTo = some ⟨"wM", ⟨⟨1, 6⟩, ⟨1, 8⟩⟩, Range.zero⟩ := by decide
+example : definition asciiUpper [nvG, nvP, nvM] ⟨"ac", some 0, 5, .plain (some "wNoLib")⟩ = [] := by decide
+
 end Gold.C10
